@@ -113,6 +113,8 @@ pub enum G {
     RecVia(Box<G>, Box<G>),
     RecSkip(Box<G>, Box<G>, Box<G>, V),
     RecRetry(Box<G>, Box<G>, Box<G>),
+    /// `recover_with(via_parser(nested_delimiters(start, end, others, |span| span)))`: (parser, start, end, [s1, e1, ...])
+    RecNd(Box<G>, u32, u32, Vec<u32>),
     Label(u64, bool, Box<G>),
     MapErr(u64, Box<G>),
     WithCtx(V, Box<G>),
@@ -356,6 +358,18 @@ impl<'a> Rd<'a> {
             "recvia" => G::RecVia(self.bg()?, self.bg()?),
             "recskip" => G::RecSkip(self.bg()?, self.bg()?, self.bg()?, self.val()?),
             "recretry" => G::RecRetry(self.bg()?, self.bg()?, self.bg()?),
+            "recnd" => {
+                let a = self.bg()?;
+                let _k = self.nat()?; // index of the model's definition of the recursive block; the real function builds its own
+                let s = self.nat()? as u32;
+                let e = self.nat()? as u32;
+                G::RecNd(a, s, e, self.nat_list()?)
+            }
+            "ndblock" => {
+                // the model's spelled-out recursive block of `nested_delimiters`: never called on this side
+                let (_k, _s, _e, _l) = (self.nat()?, self.nat()?, self.nat()?, self.nat_list()?);
+                G::Empty
+            }
             "label" => G::Label(self.nat()?, self.boolean()?, self.bg()?),
             "maperr" => G::MapErr(self.nat()?, self.bg()?),
             "withctx" => G::WithCtx(self.val()?, self.bg()?),
